@@ -1,5 +1,10 @@
 import BtcModel.Bip32
 import BtcModel.Driver.Common
+import BtcModel.KeyFormat
+import BtcModel.KeyLogic
+import BtcModel.Base58
+import BtcModel.Bech32
+import BtcModel.Gen.Networks
 namespace Btc.Driver
 open Btc Btc.Prim
 
@@ -26,6 +31,73 @@ def handleKeys (_D : Dev) : List String → Option String
         | some k => match derivePath k.neuter (items p2) with
           | some k2 => dumpXKey k2
           | none => "none"
+    pure (two r r)
+  | ["key_secret", d] => do
+    -- a private key is a scalar in [1, n-1]
+    let d ← d.toNat?
+    let r := if !secretOk d then "none" else
+      match smulG d with
+      | some p => toHex (encodePubC p) ++ " " ++ toHex (encodePubU p)
+      | none => "none"
+    pure (two r r)
+  | ["key_pub", h] => do
+    -- a public key is a SEC1 encoding of a point on the curve
+    let b ← ofHex h
+    let r := match decodePubWith sqrtP curveP b with
+      | some p => toHex (serC p) ++ " " ++ toHex (serU p)
+      | none => "none"
+    pure (two r r)
+  | ["addr", net, enc, typ, h] => do
+    let data ← ofHex h
+    let r := match Gen.networks.find? (·.name == net) with
+      | none => "none"
+      | some nw =>
+        let b58 (pre payload : Bytes) := String.ofList (b58checkEnc sha256d (pre ++ payload))
+        let seg (v : Nat) (prog : Bytes) := String.ofList (segwitEnc nw.bech32.toList v prog)
+        match enc, typ with
+        | "base58", "p2pkh" => b58 nw.prefixAddress (hash160 data)
+        | "base58", "p2sh" => b58 nw.prefixP2sh (hash160 data)
+        | "base58", "p2sh_p2wpkh" => b58 nw.prefixP2sh (hash160 ([0x00, 0x14] ++ hash160 data))
+        | "base58", "p2sh_p2wsh" => b58 nw.prefixP2sh (hash160 ([0x00, 0x20] ++ sha256 data))
+        | "bech32", "p2wpkh" => seg 0 (hash160 data)
+        | "bech32", "p2wsh" => seg 0 (sha256 data)
+        | "bech32", "p2tr" => if data.length = 32 then seg 1 data else "none"
+        | _, _ => "unsupported"
+    pure (two r r)
+  | ["wif_enc", net, d, comp] => do
+    let d ← d.toNat?
+    let r := match Gen.networks.find? (·.name == net) with
+      | some n => String.ofList (wifEnc sha256d n.prefixWif d (comp == "1"))
+      | none => "none"
+    pure (two r r)
+  | ["wif_dec", s] => do
+    let r := match wifDec sha256d s.toList with
+      | some (ver, d, c) =>
+        let nets := (Gen.networks.filter (·.prefixWif == ver)).map (·.name)
+        if nets.isEmpty then "none" else s!"{toHex ver} {d} {c}"
+      | none => "none"
+    pure (two r r)
+  | ["xkey_enc", net, priv, wt, ms, depth, fp, child, chain, keydata] => do
+    let depth ← depth.toNat?
+    let fp ← ofHex fp
+    let child ← child.toNat?
+    let chain ← ofHex chain
+    let kd ← ofHex keydata
+    let r := match versionFor net (priv == "1") wt (ms == "1") with
+      | some ver => String.ofList (xkeyEnc sha256d ⟨ver, depth, fp, child, chain, kd⟩)
+      | none => "noprefix"
+    pure (two r r)
+  | ["xkey_dec", s] => do
+    let r := match xkeyDec sha256d s.toList with
+      | none => "none"
+      | some k =>
+        let ents := versionEntries k.version
+        if ents.isEmpty then "none" else
+        let privs := (ents.map fun e => e.2.isPrivate).eraseDups
+        let nets := (ents.map fun e => e.1).eraseDups
+        let wts := (ents.map fun e => e.2.witnessType).eraseDups
+        let mss := (ents.map fun e => toString e.2.multisig).eraseDups
+        s!"depth={k.depth} fp={toHex k.parentFp} child={k.childNum} chain={toHex k.chain} keydata={toHex k.keyData} private={privs} networks={nets} witness={wts} multisig={mss}"
     pure (two r r)
   | _ => none
 
